@@ -17,13 +17,27 @@ Definition out_ok (m o : out) : bool :=
   | _, _ => false
   end.
 
+(* End-to-end histories: a presentation of a code on the path of ANOTHER topic is, for the store, an
+   Exchange like any other (serveWs exchanges the code before it looks at the token), but the
+   websocket is never let in: the flag marks those, and the admission-level view of their outcome is
+   "refused" whatever the store handed over. *)
+Fixpoint run_view (s : st) (ops : list (bool * op)) : list out :=
+  match ops with
+  | [] => []
+  | (wrong, o) :: r =>
+      let '(s1, x) := step s o in
+      (if wrong then match x with OTok _ _ => ORefused | y => y end else x) :: run_view s1 r
+  end.
+
 Inductive case :=
 | CSeq (t0 life : Z) (ops : list op) (obs : list out)
+| CSeqW (t0 life : Z) (ops : list (bool * op)) (obs : list out)
 | CRace (life : Z) (pre : list op) (c : N) (n : nat) (winners : N).
 
 Definition case_ok (k : case) : bool :=
   match k with
   | CSeq t0 life ops obs => list_eqb out_ok (snd (run (init t0 life) ops)) obs
+  | CSeqW t0 life ops obs => list_eqb out_ok (run_view (init t0 life) ops) obs
   | CRace life pre c n w =>
       N.eqb (N.of_nat (trace_wins c (snd (run_sched (final (init 0 life) pre) (repeat [Exchange c] n) (seq 0 n))))) w
   end.
@@ -37,6 +51,8 @@ Definition case_nontrivial (k : case) : bool :=
   match k with
   | CSeq t0 life ops _ =>
       let outs := snd (run (init t0 life) ops) in existsb is_tok outs && existsb is_refused outs
+  | CSeqW t0 life ops _ =>
+      let outs := run_view (init t0 life) ops in existsb is_tok outs && existsb is_refused outs
   | CRace _ _ _ n _ => (2 <=? n)%nat
   end.
 
